@@ -174,7 +174,14 @@ class EventletWorker(AsyncWorker):
             self.notify()
             eventlet.sleep(wait)
 
-        self.notify()
+        def heartbeat():
+            # the arbiter has to see us alive while the requests in
+            # flight finish
+            while True:
+                self.notify()
+                eventlet.sleep(wait)
+
+        beat = eventlet.spawn(heartbeat)
         t = None
         try:
             with eventlet.Timeout(self.cfg.graceful_timeout) as t:
@@ -187,3 +194,5 @@ class EventletWorker(AsyncWorker):
                 raise
             for a in acceptors:
                 a.kill()
+        finally:
+            beat.kill()
